@@ -222,7 +222,7 @@ var ruleFailStop = &Rule{
 			}
 		}
 		out.Counts["status_call_sites"] = n
-		out.Floors["status_call_sites"] = 40
+		out.Floors["status_call_sites"] = 13
 		return out
 	},
 }
